@@ -179,6 +179,43 @@ func (c *Ctx) errNotDropped(fn *ssa.Function, call *ssa.Call) (bool, string) {
 	return true, "failure edge ends in panic / error return"
 }
 
+// batchUsesBehind: how many batch-consuming calls a use of the batch stands for: 1 for a call that takes the batch
+// itself, or - for a static call of a module helper that hands the batch on (encodeBlockData(batcher, ..)) - the
+// number of uses of the corresponding parameter inside the helper (two levels).
+func batchUsesBehind(in ssa.Instruction, isBatch func(ssa.Value) bool, depth int) int {
+	call, ok := in.(ssa.CallInstruction)
+	if !ok {
+		return 0
+	}
+	g := call.Common().StaticCallee()
+	if g == nil || len(g.Blocks) == 0 || depth >= 2 || core.TheProg == nil || !core.TheProg.InModule(g) {
+		return 1
+	}
+	n := 0
+	for pi, a := range call.Common().Args {
+		if !isBatch(a) || pi >= len(g.Params) {
+			continue
+		}
+		par := g.Params[pi]
+		isPar := func(v ssa.Value) bool { return core.Strip(v) == ssa.Value(par) }
+		for _, cc := range core.Calls(g) {
+			uses := false
+			for _, a2 := range cc.Common().Args {
+				if isPar(a2) {
+					uses = true
+				}
+			}
+			if uses {
+				n += batchUsesBehind(cc, isPar, depth+1)
+			}
+		}
+	}
+	if n == 0 {
+		return 1
+	}
+	return n
+}
+
 // C11: the ledger recovers to a consistent height after a crash at any persist point.
 func C11(c *Ctx) {
 	r := c.R
@@ -222,7 +259,7 @@ func C11(c *Ctx) {
 				rv := core.Receiver(call)
 				return rv != nil && sameBatch(rv)
 			}
-			isAppend := callToMethod("AppendBlock")
+			isAppend := c.throughHelpers(callToMethod("AppendBlock")) // also a helper of the chain ledger that appends
 			ok, why, n := c.orderedBefore(pe, isAppend, isMetaCommit, "blockfile AppendBlock", "commit of the chain-meta batch")
 			r.Check(ok, "R11.1", "PersistExecutionResult: blockfile append before chain-meta commit", c.P.Pos(pe.Pos()), fmt.Sprintf("%d ordered pair(s)", n),
 				"the chain meta can become durable before the block it names is in the blockfile: after a crash the head block cannot be read: "+why)
@@ -245,7 +282,7 @@ func C11(c *Ctx) {
 			for _, cm := range durableSites(pe, isMetaCommit) {
 				rs := core.Reach([]core.Point{core.After(cm.at)}, nil, nil)
 				for _, u := range durableSites(pe, isBatchUse) {
-					nUse++
+					nUse += batchUsesBehind(u.in, sameBatch, 0)
 					if rs.Has(u.at) {
 						okAll = false
 						why2 = shortCallee(u.in.(ssa.CallInstruction)) + " at " + c.P.Pos(u.in.Pos()) + " writes into the batch after it was committed"
@@ -271,6 +308,28 @@ func C11(c *Ctx) {
 			}
 			rv := core.Receiver(call)
 			return rv != nil && strings.HasSuffix(rv.Type().String(), "storage.Batch")
+		}
+		isBatchCommitDirect := isBatchCommit
+		// the commit may sit in a helper of the ledger that receives the batch (commitJournalBatch(batch, height))
+		isBatchCommit = func(in ssa.Instruction) bool {
+			if isBatchCommitDirect(in) {
+				return true
+			}
+			call, ok := in.(ssa.CallInstruction)
+			if !ok {
+				return false
+			}
+			g := core.StaticCallee(call)
+			if g == nil || len(g.Blocks) == 0 || core.PkgOf(g) != ledgerPkg || g == commit {
+				return false
+			}
+			takes := false
+			for _, a := range call.Common().Args {
+				if strings.HasSuffix(a.Type().String(), "storage.Batch") {
+					takes = true
+				}
+			}
+			return takes && len(sites(g, isBatchCommitDirect)) == 1
 		}
 		cs := sites(commit, isBatchCommit)
 		r.Check(len(cs) == 1, "R11.2", "Commit: exactly one batch commit", c.P.Pos(commit.Pos()), "one ldbBatch.Commit()", fmt.Sprintf("%d batch commits in SimpleLedger.Commit: the block's state reaches the disk in several steps", len(cs)))
